@@ -32,6 +32,10 @@ def _rx(e, env):
     if isinstance(e, ast.UnaryOp) and isinstance(e.op, ast.USub):
         v = _rx(e.operand, env)
         return [f'(-{x})' for x in v] if isinstance(v, list) else f'(-{v})'
+    if isinstance(e, ast.BinOp) and isinstance(e.op, ast.Pow) and isinstance(e.right, ast.Constant) and e.right.value == 2:
+        a = _rx(e.left, env)
+        if isinstance(a, list): raise Refuse('square of a vector')
+        return f'({a} * {a})'
     if isinstance(e, ast.BinOp):
         ops = {ast.Add: '+', ast.Sub: '-', ast.Mult: '*', ast.Div: '/'}
         if type(e.op) not in ops: raise Refuse('operator ' + type(e.op).__name__)
@@ -42,6 +46,11 @@ def _rx(e, env):
         f = ast.unparse(e.func)
         if f == 'np.ones' and len(e.args) == 1: return env['__one__']          # a column of ones
         if f.endswith('.ravel') and not e.args: return _rx(e.func.value, env)    # flattening keeps the sample
+        if f == 'np.sqrt' and len(e.args) == 1 and 'sqrt' in env: return f'(sqrt {_rx(e.args[0], env)})'
+        if f == 'np.polyval' and len(e.args) == 2:
+            p_ = _rx(e.args[0], env); x_ = _rx(e.args[1], env)
+            if not (isinstance(p_, list) and len(p_) == 2) or isinstance(x_, list): raise Refuse('polyval: only first-order polynomials')
+            return f'(({p_[0]} * {x_}) + {p_[1]})'          # Horner: (0*x + p0)*x + p1
     raise Refuse('expression ' + ast.unparse(e)[:60])
 
 def _method(mod, cls, name):
@@ -195,6 +204,65 @@ def generate(repo):
     loop = _one([n for n in ast.walk(fs) if isinstance(n, ast.For)], 'Field.shift: loop')
     if ast.unparse(loop.iter) != 'self.tilt' or ast.unparse(loop.body[0]) != 'x, y = tilt.shift(xs=x, ys=y, z=z, wavelength=wavelength)':
         raise Refuse('Field.shift: the fold over self.tilt changed')
+    # ---------------- DispersiveTilt.shift, first-order branches of _dispersion and _trace
+    dsft, ddis, dtra = _method(mod, 'DispersiveTilt', 'shift'), _method(mod, 'DispersiveTilt', '_dispersion'), _method(mod, 'DispersiveTilt', '_trace')
+    denv = {'__one__': 'one', 'sqrt': True, 'wavelength': 'wavelength', 'xs': 'xs', 'ys': 'ys',
+            'self.dispersion': ['dispersion_0', 'dispersion_1'], 'self.trace': ['trace_0', 'trace_1']}
+    b1 = _one([n for n in ddis.body if isinstance(n, ast.If)], '_dispersion: order branch')
+    if ast.unparse(b1.test) != 'self._dispersion_order == 1' or len(b1.body) != 1 or not isinstance(b1.body[0], ast.Return): raise Refuse('_dispersion: first-order branch changed')
+    dist = _rx(b1.body[0].value, denv)
+    b2 = _one([n for n in dtra.body if isinstance(n, ast.If)], '_trace: order branch')
+    if ast.unparse(b2.test) != 'self._trace_order == 1' or len(b2.body) != 1 or ast.unparse(b2.body[0].targets[0]) != 'x': raise Refuse('_trace: first-order branch changed')
+    tenv = dict(denv); tenv['dist'] = 'dist'
+    tenv['x'] = _rx(b2.body[0].value, tenv)
+    rest = [n for n in dtra.body if not isinstance(n, ast.If) and not (isinstance(n, ast.Expr) and isinstance(n.value, ast.Constant))]
+    if len(rest) != 2 or ast.unparse(rest[0].targets[0]) != 'y' or ast.unparse(rest[1]) not in ('return (x, y)', 'return x, y'): raise Refuse('_trace: tail changed')
+    tenv['y'] = _rx(rest[0].value, {**tenv, 'x': 'x'})
+    sb = [n for n in dsft.body if not (isinstance(n, ast.Expr) and isinstance(n.value, ast.Constant))]
+    want = ['dist = self._dispersion(wavelength)', ('x, y = self._trace(dist)', '(x, y) = self._trace(dist)'), 'x += xs', 'y += ys', ('return (x, y)', 'return x, y')]
+    got = [ast.unparse(n) for n in sb]
+    if len(got) != 5 or any((g not in w) if isinstance(w, tuple) else (g != w) for g, w in zip(got, want)): raise Refuse('DispersiveTilt.shift: body changed: ' + ' | '.join(got))
+    out.append(f'/-- translated from `plane.py:DispersiveTilt.shift` (line {dsft.lineno}) with the first-order branches of `_dispersion` (line {ddis.lineno})\n'
+               f'and `_trace` (line {dtra.lineno}); `sqrt` = `np.sqrt` -/\n'
+               f'def dispersiveShift1 {RC} (sqrt : R → R) (one trace_0 trace_1 dispersion_0 dispersion_1 wavelength xs ys : R) : R × R :=\n'
+               f'  let dist := {dist}\n  let x := {tenv["x"]}\n  let y := {tenv["y"]}\n  ((x + xs), (y + ys))\n')
+    # ---------------- how tilt lists are built: Wavefront.__init__, Field.__mul__, TiltInterface.multiply (list expressions)
+    wmod = ast.parse(open(os.path.join(repo, 'lentil/wavefront.py')).read())
+    def lx(e, env):
+        """Python list expression -> Lean list expression: names, `a + b`, `[x, …]`, `Tilt(x=…, y=…)` via `mkTilt`"""
+        if isinstance(e, ast.Name) or isinstance(e, ast.Attribute):
+            k = ast.unparse(e)
+            if k not in env: raise Refuse('list expression: unknown ' + k)
+            return env[k]
+        if isinstance(e, ast.BinOp) and isinstance(e.op, ast.Add): return f'({lx(e.left, env)} ++ {lx(e.right, env)})'
+        if isinstance(e, ast.List): return '[' + ', '.join(lx(x, env) for x in e.elts) + ']'
+        if isinstance(e, ast.Call) and ast.unparse(e.func) == 'Tilt' and not e.args and [k.arg for k in e.keywords] == ['x', 'y']:
+            return f'(mkTilt {_rx(e.keywords[0].value, env)} {_rx(e.keywords[1].value, env)})'
+        raise Refuse('list expression ' + ast.unparse(e)[:60])
+    wi = _method(wmod, 'Wavefront', '__init__')
+    wt = _one([n for n in ast.walk(wi) if isinstance(n, ast.Assign) and ast.unparse(n.targets[0]) == 'tilt'], 'Wavefront.__init__: tilt = [...]')
+    guard = _one([n for n in ast.walk(wi) if isinstance(n, ast.If) and ast.unparse(n.test) == 'tilt is not None'], 'Wavefront.__init__: `if tilt is not None`')
+    if wt not in guard.body: raise Refuse('Wavefront.__init__: the Tilt wrapping is no longer under `if tilt is not None`')
+    fcall = _one([n for n in ast.walk(wi) if isinstance(n, ast.Call) and ast.unparse(n.func) == 'Field'], 'Wavefront.__init__: Field(...)')
+    if ast.unparse({k.arg: k.value for k in fcall.keywords}.get('tilt', ast.Constant(None))) != 'tilt': raise Refuse('Wavefront.__init__: the initial Field no longer gets tilt=tilt')
+    out.append(f'/-- translated from `wavefront.py:Wavefront.__init__` (line {wt.lineno}): the tilt list of the initial Field for `Wavefront(tilt=(tilt_0, tilt_1))` -/\n'
+               f'def wavefrontInitTilt {{R T : Type}} (mkTilt : R → R → T) (tilt_0 tilt_1 : R) : List T :=\n  {lx(wt.value, {"tilt": ["tilt_0", "tilt_1"], "__one__": "one"})}\n')
+    fm = _method(fmod, 'Field', '__mul__')
+    ft_ = _one([n for n in ast.walk(fm) if isinstance(n, ast.Assign) and ast.unparse(n.targets[0]) == 'tilt'], 'Field.__mul__: tilt = …')
+    ret = _one([n for n in ast.walk(fm) if isinstance(n, ast.Return)], 'Field.__mul__: return')
+    if ast.unparse({k.arg: k.value for k in ret.value.keywords}.get('tilt', ast.Constant(None))) != 'tilt': raise Refuse('Field.__mul__: the product no longer gets tilt=tilt')
+    out.append(f'/-- translated from `field.py:Field.__mul__` (line {ft_.lineno}): the tilt list of a product of two Fields -/\n'
+               f'def fieldMulTilt {{T : Type}} (self_tilt other_tilt : List T) : List T :=\n  {lx(ft_.value, {"self.tilt": "self_tilt", "other.tilt": "other_tilt"})}\n')
+    tm = _method(mod, 'TiltInterface', 'multiply')
+    tb = [x for x in tm.body if not (isinstance(x, ast.Expr) and isinstance(x.value, ast.Constant))]
+    if not (len(tb) == 3 and ast.unparse(tb[0]) == 'wavefront = super().multiply(wavefront)' and isinstance(tb[1], ast.For)
+            and ast.unparse(tb[1].target) == 'field' and ast.unparse(tb[1].iter) == 'wavefront.data' and len(tb[1].body) == 1
+            and ast.unparse(tb[2]) == 'return wavefront'):
+        raise Refuse('TiltInterface.multiply: structure changed')
+    ap = tb[1].body[0].value
+    if not (isinstance(ap, ast.Call) and ast.unparse(ap.func) == 'field.tilt.append' and len(ap.args) == 1): raise Refuse('TiltInterface.multiply: no field.tilt.append(…)')
+    out.append(f'/-- translated from `plane.py:TiltInterface.multiply` (line {tb[1].lineno}): every field of the product gets the element appended -/\n'
+               f'def tiltInterfaceAppend {{T : Type}} (field_tilt : List T) (self : T) : List T :=\n  (field_tilt ++ [{lx(ap.args[0], {"self": "self"})}])\n')
     return '\n'.join(out), ['ptt_vector / fit_tilt / multiply / Tilt / Field.shift wiring; lstsq, einsum, reshape guarded textually']
 
 def _guarded(fn):
